@@ -66,6 +66,8 @@ def installed(kernel=None):
         saved.append((mod, name, getattr(mod, name)))
         setattr(mod, name, val)
     patch(arraymap, "create_map", k.create_map)
+    import ebpfcat.hashmap as hashmap
+    patch(hashmap, "create_map", k.create_map)
     for name in ("lookup_elem", "update_elem", "delete_elem", "create_map"):
         patch(cat, name, getattr(k, name))
     patch(bpf, "prog_load", k.prog_load)
